@@ -1377,3 +1377,100 @@ pub mod verif_events {
         (described, last.retry_data.attempt, last.result)
     }
 }
+
+/// Verification hooks (`--cfg nextest_verif`): plain-data constructors for [`ExecuteStatus`] /
+/// [`ExecutionStatuses`] and thin wrappers around the crate-private statistics functions.
+#[cfg(nextest_verif)]
+pub mod verif_run_stats {
+    use super::*;
+    use crate::test_output::{ChildOutput, ChildSplitOutput};
+
+    /// One attempt, described by plain data: the result, `is_slow` and the retry data.
+    #[derive(Clone, Copy, Debug, Eq, PartialEq)]
+    pub struct VerifAttempt {
+        /// The result of the attempt.
+        pub result: ExecutionResult,
+        /// Whether the attempt counts as slow.
+        pub is_slow: bool,
+        /// `retry_data.attempt`.
+        pub attempt: usize,
+        /// `retry_data.total_attempts`.
+        pub total_attempts: usize,
+    }
+
+    impl VerifAttempt {
+        /// Reads the plain data back from an [`ExecuteStatus`].
+        pub fn of_status(status: &ExecuteStatus) -> Self {
+            Self {
+                result: status.result,
+                is_slow: status.is_slow,
+                attempt: status.retry_data.attempt,
+                total_attempts: status.retry_data.total_attempts,
+            }
+        }
+    }
+
+    fn empty_output(result: ExecutionResult) -> ChildExecutionOutput {
+        ChildExecutionOutput::Output {
+            result: Some(result),
+            output: ChildOutput::Split(ChildSplitOutput {
+                stdout: None,
+                stderr: None,
+            }),
+            errors: None,
+        }
+    }
+
+    /// Builds an [`ExecuteStatus`] with empty output and zero durations.
+    pub fn execute_status(a: VerifAttempt) -> ExecuteStatus {
+        ExecuteStatus {
+            retry_data: RetryData {
+                attempt: a.attempt,
+                total_attempts: a.total_attempts,
+            },
+            output: empty_output(a.result),
+            result: a.result,
+            start_time: chrono::Local::now().fixed_offset(),
+            time_taken: Duration::ZERO,
+            is_slow: a.is_slow,
+            delay_before_start: Duration::ZERO,
+        }
+    }
+
+    /// Builds a [`SetupScriptExecuteStatus`] with empty output and zero durations.
+    pub fn setup_script_status(result: ExecutionResult) -> SetupScriptExecuteStatus {
+        SetupScriptExecuteStatus {
+            output: empty_output(result),
+            result,
+            start_time: chrono::Local::now().fixed_offset(),
+            time_taken: Duration::ZERO,
+            is_slow: false,
+            env_map: None,
+        }
+    }
+
+    /// Builds [`ExecutionStatuses`] (panics like the real constructor's users if `attempts` is
+    /// empty and the value is then inspected).
+    pub fn execution_statuses(attempts: &[VerifAttempt]) -> ExecutionStatuses {
+        ExecutionStatuses::new(attempts.iter().copied().map(execute_status).collect())
+    }
+
+    /// The real `RunStats::on_test_finished`.
+    pub fn on_test_finished(stats: &mut RunStats, attempts: &[VerifAttempt]) {
+        stats.on_test_finished(&execution_statuses(attempts));
+    }
+
+    /// The real `RunStats::on_setup_script_finished`.
+    pub fn on_setup_script_finished(stats: &mut RunStats, result: ExecutionResult) {
+        stats.on_setup_script_finished(&setup_script_status(result));
+    }
+
+    /// The variant `ExecutionStatuses::describe` picks: 0 = Success, 1 = Flaky, 2 = Failure.
+    pub fn describe_code(attempts: &[VerifAttempt]) -> u8 {
+        match execution_statuses(attempts).describe() {
+            ExecutionDescription::Success { .. } => 0,
+            ExecutionDescription::Flaky { .. } => 1,
+            ExecutionDescription::Failure { .. } => 2,
+        }
+    }
+}
